@@ -41,6 +41,17 @@ impl B {
             }
         }
     }
+    /// like `add`, each unit split into `k` slices of the schedule tree
+    fn add_sliced(&mut self, scen: &str, e0s: &[i64], extra: &[&[(&str, i64)]], bound: usize, k: usize) {
+        let from = self.units.len();
+        self.add(scen, e0s, extra, bound);
+        let base: Vec<Unit> = self.units.drain(from..).collect();
+        for u in base {
+            for j in 0..k {
+                self.units.push(u.clone().slice(j, k));
+            }
+        }
+    }
     fn goal(&mut self, scen: &str, key: &str) {
         self.goals.push(goal(scen, key));
     }
@@ -86,9 +97,9 @@ pub fn plan(prop: &str, tier: &str) -> Option<Plan> {
             b.add("rc/reader-vs-root-reclaim", all, &[&[("age", 0)], &[("age", 4)]], bq);
             b.add("rc/reader-second-path", all, &[&[("age", 4), ("pre", 2)]], if quick { 2 } else { 3 });
             b.add("rc/reader-second-path", if quick { few } else { all }, &[&[("age", 0), ("pre", 2)], &[("age", 4), ("pre", 3)]], if quick { 2 } else { 3 });
-            b.add("rc/stalled-dropper", if quick { few } else { all }, &[&[("k", 0)]], 2);
+            b.add_sliced("rc/stalled-dropper", if quick { few } else { all }, &[&[("k", 0)]], 2, if quick { 8 } else { 4 });
             if !quick {
-                b.add("rc/stalled-dropper", few, &[&[("k", 3)]], 2);
+                b.add_sliced("rc/stalled-dropper", few, &[&[("k", 3)]], 2, 4);
             }
             b.add("rc/failed-cas-current", all, &[], bq);
             b.add("rc/snapshot-then-drop", all, &[&[("age", 4), ("pre", 2)], &[("age", 0), ("pre", 2)]], bq);
@@ -101,7 +112,7 @@ pub fn plan(prop: &str, tier: &str) -> Option<Plan> {
                     b.add(s, few, &[&[("classes", RC_EBR)]], 2);
                 }
             }
-            b.goal("rc/reader-second-path", "cascade-child-destructed");
+            b.goal("rc/stalled-dropper", "cascade-child-destructed");
             b.goal("rc/reader-second-path", "try-destruct-ran");
             b.goal("rc/ws-upgrade-vs-cascade-child", "upgrade-some");
             b.goal("rc/ws-upgrade-vs-attempt", "upgrade-some");
